@@ -247,6 +247,65 @@ def skip_extra(ctx, sc, r):
         ctx.violate("return-value", "error-reported-for-a-close-frame-ending@skip-utf8-validation", sc, "no error report", str(cbs)[-200:], size=n)
 
 
+def rerun_settings_scenarios(ctx):
+    """the same object run again with OTHER keepalive settings (ping_interval / ping_timeout are arguments of each run_forever
+    call): the later run behaves like a first run with those settings, whatever the earlier run left unanswered."""
+    rnd = ctx.rng("c14-rerun-settings")
+    scs = []
+    first_runs = {
+        # pings at 2·iv, 3·iv, …: the last one is still unanswered when the run ends
+        "unanswered-close": [[2300, 0, "t", "6869"], [900, 0, "c", "03e8"]],
+        "unanswered-eof": [[3100, 0, "e", ""]],
+        "answered-close": [[2050, 0, "q", ""], [1100, 0, "c", "03e8"]],
+        "late-pong-eof": [[3500, 0, "q", "6c"], [100, 0, "e", ""]],
+    }
+    second_runs = {
+        "data-close": [[700, 0, "t", "6f6b"], [300, 0, "c", "03e974776f"]],
+        "pong-data-close": [[400, 0, "q", ""], [400, 0, "b", "00ff"], [300, 0, "c", "03e8"]],
+        "eof": [[900, 0, "p", "70"], [200, 0, "e", ""]],
+    }
+    kopts = [([1000, None], [0, 500]), ([1000, 400], [0, 300]), ([1000, None], [2000, 700]), ([1000, 400], [0, None]),
+             ([0, 300], [1000, 400]), ([1000, None], [1000, None])]
+    for fn, fr in first_runs.items():
+        for sn, sr in second_runs.items():
+            for k1, k2 in kopts:
+                for ssl in (False, True):
+                    if ssl and not ctx.thorough() and rnd.random() < 0.6:
+                        continue
+                    scs.append({"cbs": appsim.ALL, "ssl": ssl, "runs": [[["E", fr]], [["E", sr]]], "kopts": [k1, k2],
+                                "horizon": 60 * TPS, "tag": f"rerun-settings:{fn}|{sn}", "kind": "rerun-settings"})
+    return scs
+
+
+def _run_segments(trace):
+    """callback/outcome events per run (ticks dropped): split after each ret:/raised: item."""
+    segs, cur = [], []
+    for it in (trace.split(";") if trace else []):
+        ev = it.partition(":")[2]
+        if ev.startswith(("cb:", "ret:", "raised:")):
+            cur.append(ev)
+        if ev.startswith(("ret:", "raised:")):
+            segs.append(cur)
+            cur = []
+    if cur:
+        segs.append(cur)
+    return segs
+
+
+def rerun_settings_extra(ctx, sc, r):
+    """a later run = a first run: the callbacks and the outcome of run k on the re-used object are those of the same run, with
+    the same settings, on a fresh object."""
+    extra(ctx, sc, r)
+    segs = _run_segments(r["trace"])
+    k = len(sc["runs"]) - 1
+    fresh = dict(sc, runs=[sc["runs"][k]], kopts=[sc["kopts"][k]])
+    fr = appcheck.run_real_many([fresh])[0]
+    fsegs = _run_segments(fr["trace"])
+    if len(segs) <= k or not fsegs or segs[k] != fsegs[0]:
+        ctx.violate("rerun-like-first", "later-run-differs-from-a-first-run-with-the-same-settings", sc,
+                    f"run {k + 1}: {fsegs[0] if fsegs else None}", f"{segs[k] if len(segs) > k else None}", size=appcheck.size_of(sc))
+
+
 def closer_scenarios(ctx):
     """second-thread close(): at scripted ticks with both tie orders, and at executed lines of the main loop."""
     scs = []
@@ -301,6 +360,7 @@ def run(ctx):
     appcheck.evaluate(ctx, "C14", scenarios(ctx), cls_of=cls_of, extra_check=extra)
     # reconnecting runs: model correspondence + the resource oracles of `extra` ("C14/resources" matches no Spec tag)
     appcheck.evaluate(ctx, "C14/resources", reconnect_scenarios(ctx), cls_of=cls_of, extra_check=extra)
+    appcheck.evaluate(ctx, "C14/rerun-settings", rerun_settings_scenarios(ctx), cls_of=cls_of, extra_check=rerun_settings_extra)
     appcheck.evaluate(ctx, "C14/skip", skip_scenarios(ctx), cls_of=cls_of, extra_check=skip_extra, model=False)
     appcheck.evaluate(ctx, "C14", closer_scenarios(ctx), cls_of=cls_of, extra_check=closer_extra, model=False)
 
